@@ -16,12 +16,19 @@ package webdav
 //                     {absent, 0, 1, infinity}, lock states {none, source locked + token, source locked without
 //                     token, destination locked by someone else}.
 //
+//   VerifC46_deep     h.handleCopyMove directly over the deeper tree {/a, /d, /d/k, /d/s, /d/s/c, /d/s/t, /d/s/t/f}:
+//                     method x source = every resource x Destination = every resource, the root and one fresh name
+//                     in every collection, each in 4 spellings x Overwrite {T, F} x Depth {absent, 0} (COPY) x lock
+//                     state as in enum. Destinations are thus the source, its parent, higher ancestors (non-root
+//                     grandparent, great-grandparent, root), descendants at distance 1..3, siblings/cousins, new names.
+//
 // Oracle (the statement): with S = slashClean(source) and D = slashClean(path of the parsed Destination), every
 // entry of the snapshot at or below S — except entries at or below D when D lies strictly inside the source, which
 // are the destination the client asked to replace — is still there with the same kind and contents after a COPY; after a MOVE either that
 // holds, or S is gone and every such entry is found unchanged at D + (its path relative to S).
 //
-// Known findings reached on the unchanged tree (known_findings.txt, repro/C46):
+// Findings of this check, repaired in /repo since (known_findings.txt `fixed:` entry, repro/C46; the keys are no
+// longer listed, so the vfAssertKF below are plain assertions):
 //   C46-destination-spelling-of-source   Destination that cleans to the source ("/d/", "//d", "d", "/d/.", ...)
 //   C46-destination-is-ancestor-of-source  e.g. /d/c -> /d with overwrite: the DELETE of the destination removes
 //                                        the source before it is copied/moved
@@ -41,6 +48,7 @@ import (
 func init() {
 	vfRegister("VerifC46_enum", VerifC46_enum)
 	vfRegister("VerifC46_curated", VerifC46_curated)
+	vfRegister("VerifC46_deep", VerifC46_deep)
 }
 
 type c46world struct {
@@ -50,7 +58,11 @@ type c46world struct {
 	snap c44tree // path -> kind/contents before the request
 }
 
-func c46setup() *c46world {
+func c46setup() *c46world { return c46setupTree(false) }
+
+// c46setupTree builds the shallow tree {/a, /d, /d/c, /e} or, with deep, a tree whose sources can lie up to three
+// levels below an existing non-root collection: {/a, /d, /d/k, /d/s, /d/s/c, /d/s/t, /d/s/t/f}.
+func c46setupTree(deep bool) *c46world {
 	ctx := context.Background()
 	w := &c46world{fs: NewMemFS(), ls: NewMemLS(), snap: c44tree{"/": {dir: true}}}
 	w.ls.(*memLS).gen = 1000 // NewMemLS seeds the token generator from the wall clock; tokens must be concrete here
@@ -68,6 +80,14 @@ func c46setup() *c46world {
 	}
 	mkfile("/a", vfU8("content-a"))
 	mkdir("/d")
+	if deep {
+		mkfile("/d/k", vfU8("content-k"))
+		mkdir("/d/s")
+		mkfile("/d/s/c", vfU8("content-c"))
+		mkdir("/d/s/t")
+		mkfile("/d/s/t/f", vfU8("content-f"))
+		return w
+	}
 	mkfile("/d/c", vfU8("content-c"))
 	mkdir("/e")
 	return w
@@ -185,6 +205,64 @@ func VerifC46_enum() {
 	}
 	if vfChoice("locked", 2) == 1 {
 		q.ifHeader = w.lockSource(q.src)
+	}
+	status, _ := w.h.handleCopyMove(nil, q.build())
+	w.check(q, status)
+	vfReach("end")
+}
+
+// Deep tree: every resource is a source, every resource (root included) and one fresh name in every collection is a
+// destination, each in four spellings. This covers destinations that are the source, its parent, a higher ancestor,
+// a descendant at any distance, a sibling/cousin, and a name that does not exist yet, at every level of the tree.
+var c46deepNodes = []string{"/a", "/d", "/d/k", "/d/s", "/d/s/c", "/d/s/t", "/d/s/t/f"}
+var c46deepDests = []string{"/", "/a", "/d", "/d/k", "/d/s", "/d/s/c", "/d/s/t", "/d/s/t/f", "/x", "/d/x", "/d/s/x", "/d/s/t/x"}
+
+// c46spell: spelling number v of the canonical path p (all four clean to p).
+func c46spell(p string, v int) string {
+	if p == "/" {
+		return []string{"/", "/.", "/./", "/d/.."}[v]
+	}
+	switch v {
+	case 1:
+		return p + "/"
+	case 2:
+		return p + "/."
+	case 3:
+		return "/." + p
+	}
+	return p
+}
+
+func VerifC46_deep() {
+	w := c46setupTree(true)
+	q := c46req{}
+	q.method = []string{"COPY", "MOVE"}[vfChoice("method", 2)]
+	q.src = c46deepNodes[vfChoice("src", len(c46deepNodes))]
+	D := c46deepDests[vfChoice("dest", len(c46deepDests))]
+	q.dest = c46spell(D, vfChoice("spelling", 4))
+	q.overwrite = []string{"T", "F"}[vfChoice("overwrite", 2)]
+	if q.method == "COPY" {
+		q.depth = []string{"", "0"}[vfChoice("depth", 2)]
+	}
+	if vfChoice("locked", 2) == 1 {
+		q.ifHeader = w.lockSource(q.src)
+	}
+	if c44below(q.src, D) {
+		vfReach("destination-is-ancestor")
+		if D != "/" && D != path.Dir(q.src) {
+			vfReach("destination-is-non-root-grandparent-or-higher")
+		}
+	}
+	if c44below(D, q.src) && path.Dir(D) != q.src {
+		vfReach("destination-deep-inside-source")
+		if q.method == "COPY" && q.depth == "" {
+			// An infinite-depth COPY of a collection to a place two or more levels inside itself keeps finding its
+			// own output (the TODO about RFC 4918 section 9.8.3 in copyFiles) until the recursion limit of 1000
+			// answers 500: everything it creates lies below the destination, but 1000 nested collections are beyond
+			// the engine's instruction bound and the walk of the oracle. Explored with Depth: 0 only.
+			vfReach("excluded-self-nesting-copy")
+			return
+		}
 	}
 	status, _ := w.h.handleCopyMove(nil, q.build())
 	w.check(q, status)
